@@ -700,7 +700,7 @@ func (r TypeInfo) IsInstanceOf(tc TypeClass) bool {
 
 	switch at := r.Type.(type) {
 	case *types.Named:
-		if at.Obj().Pkg().Path() == tc.Package.Path() && at.Obj().Name() == tc.Name {
+		if at.Obj().Pkg() != nil && at.Obj().Pkg().Path() == tc.Package.Path() && at.Obj().Name() == tc.Name {
 			return true
 		}
 	}
